@@ -1,0 +1,39 @@
+//go:build verif
+
+package dhcp
+
+import (
+	"net"
+	"time"
+
+	"github.com/insomniacslk/dhcp/dhcpv4"
+)
+
+// Hooks for the C08 runtime monitor (every started accounting session gets a
+// Stop): exported wrappers around unexported functions and a read-only copy
+// of one lease entry. Nothing here has behaviour of its own.
+
+// VerifC08Handle calls the slow-path packet handler the way server4 does.
+func (s *Server) VerifC08Handle(conn net.PacketConn, peer net.Addr, req *dhcpv4.DHCPv4) {
+	s.handleDHCP(conn, peer, req)
+}
+
+// VerifC08Sweep runs one lease-cleanup tick (what leaseCleanup does once a minute).
+func (s *Server) VerifC08Sweep() { s.cleanupExpiredLeases() }
+
+// VerifC08StopAllAccounting calls the shutdown accounting path of Start.
+func (s *Server) VerifC08StopAllAccounting(terminateCause uint32) {
+	s.stopAllAccounting(terminateCause)
+}
+
+// VerifC08Lease returns the address, expiry and accounting session id of the
+// client's lease table entry, if there is one.
+func (s *Server) VerifC08Lease(mac net.HardwareAddr) (ip net.IP, expiresAt time.Time, sessionID string, ok bool) {
+	s.leasesMu.RLock()
+	defer s.leasesMu.RUnlock()
+	l := s.leases[mac.String()]
+	if l == nil {
+		return nil, time.Time{}, "", false
+	}
+	return append(net.IP(nil), l.IP...), l.ExpiresAt, l.SessionID, true
+}
